@@ -4,7 +4,7 @@ import re
 from xvlib.core import Check
 from xvlib.frontend import AnalysisBroken
 from xvlib.absint import run_function, Inconclusive
-from xvlib.facts import show, walk
+from xvlib.facts import show, walk, strip_casts
 from xvlib.normform import Rat, Poly
 from rules.common import noerr, sets_error, value_paths, zero_paths, strip_err_text, rename
 
@@ -54,6 +54,24 @@ def run(prog, tier):
         cp_function(prog, chk, f, lib)
     refractive(prog, chk)
     return chk
+
+
+def loop_covers_record(node, p, ctor):
+    """for (v = 0; v < n; v++) with n the element count of the record that `ctor` returned on this path"""
+    if not node or node.get('k') != 'ForStmt':
+        return False
+    init0 = any(a.get('k') == 'BinaryOperator' and a['op'] == '=' and a['c'][1].get('v') == 0 for a in walk(node.get('init') or {}))
+    cond = node.get('cond') or {}
+    inc = node.get('inc') or {}
+    if not (init0 and cond.get('op') == '<' and inc.get('k') == 'UnaryOperator' and inc.get('op') == '++' and show(inc['c'][0]) == show(cond['c'][0])):
+        return False
+    b = strip_casts(cond['c'][1])
+    val = None
+    if b.get('k') == 'DeclRefExpr' and b.get('id') in p.env and p.env[b['id']] is not None:
+        val = p.env[b['id']].canon()
+    else:
+        val = show(b)
+    return re.match(r'^\(?%s#\d+\(.*\)\)?(\.|->)nElements$' % re.escape(ctor), val or '') is not None
 
 
 def cp_function(prog, chk, f, lib):
@@ -111,6 +129,10 @@ def cp_function(prog, chk, f, lib):
                 break
         chk.decide(ok, 'mixture-term', U, name, br, loc, msg,
                    why='w_i * %s(Z_i, %s, error), same record and index' % (callee, ', '.join(scal)))
+        rng = [loop_covers_record(iteration(p).node, p, ctor) for p in it_paths]
+        chk.decide(bool(rng) and all(rng), 'all-elements', U, name, br, loc,
+                   'the sum must run over every element of the resolved compound: i = 0 .. nElements-1 of the record returned by %s' % ctor,
+                   why='for (i = 0; i < nElements; i++) over the record of %s' % ctor)
         # zero term => 0
         failing = []
         for p in mine:
@@ -166,6 +188,10 @@ def refractive(prog, chk):
             if not vals:
                 chk.bad('refractive-formula', U, name, br, loc, 'no value path')
                 continue
+            rng = [loop_covers_record(iteration(p).node, p, ctor) for p in vals]
+            chk.decide(all(rng), 'all-elements', U, name, br, loc,
+                       'the sum must run over every element of the resolved compound: i = 0 .. nElements-1 of the record returned by %s' % ctor,
+                       why='for (i = 0; i < nElements; i++) over the record of %s' % ctor)
             for p in vals:
                 ev = iteration(p)
                 dval = it.eval({'k': 'DeclRefExpr', 'name': dens, 'cls': 'param', 'id': f['params'][2]['id']}, p)
